@@ -209,7 +209,10 @@ inline int run_main(int argc, char** argv) {
   }
   g.history.reserve(1 << 16);
   signal(SIGSEGV, fatal_signal_handler);
+#if !defined(__SANITIZE_THREAD__)
+  // (under ThreadSanitizer a SIGABRT handler deadlocks the runtime's abort_on_error path)
   signal(SIGABRT, fatal_signal_handler);
+#endif
   signal(SIGFPE, fatal_signal_handler);
   signal(SIGBUS, fatal_signal_handler);
   signal(SIGILL, fatal_signal_handler);
